@@ -86,6 +86,10 @@ type C12Case struct {
 	Stats bool `json:"stats,omitempty"`
 	// BusyHandlers: the unary handler also calls grpc.SetHeader/SendHeader/SetTrailer, one of them after the headers went out
 	BusyHandlers bool `json:"busy_handlers,omitempty"`
+	// SlowUnary: this many well-formed unary requests (ids 9001..) are sent first to a method whose handler only returns
+	// after the connection has been shut down at the end of the case - a handler that outlives its connection must not
+	// bring the process down when it finally replies
+	SlowUnary int `json:"slow_unary,omitempty"`
 }
 
 func (c C12Case) names() []string {
@@ -100,7 +104,7 @@ func (c C12Case) names() []string {
 func genC12(t *rapid.T) C12Case {
 	al := c12Alphabet()
 	n := rapid.IntRange(1, 40).Draw(t, "len")
-	c := C12Case{Ser: rapid.Bool().Draw(t, "ser"), Burst: rapid.Bool().Draw(t, "burst"), Stats: rapid.IntRange(0, 2).Draw(t, "stats") == 0, BusyHandlers: rapid.IntRange(0, 2).Draw(t, "busy") == 0}
+	c := C12Case{Ser: rapid.Bool().Draw(t, "ser"), Burst: rapid.Bool().Draw(t, "burst"), Stats: rapid.IntRange(0, 2).Draw(t, "stats") == 0, BusyHandlers: rapid.IntRange(0, 2).Draw(t, "busy") == 0, SlowUnary: rapid.SampledFrom([]int{0, 0, 1, 3}).Draw(t, "slow_unary")}
 	for i := 0; i < n; i++ {
 		if i > 0 && rapid.IntRange(0, 2).Draw(t, "repeat") == 0 {
 			c.Seq = append(c.Seq, c.Seq[i-1]) // runs of the same envelope fill the one-slot queues
@@ -153,6 +157,11 @@ func execC12(t *testing.T, c C12Case) (v Verdict) {
 			return append([]byte("re:"), req...), nil
 		})
 		svc.Unary("probe", func(ctx context.Context, req []byte) ([]byte, error) { return append([]byte("probe:"), req...), nil })
+		slowGate := make(chan struct{})
+		svc.Unary("uslow", func(ctx context.Context, req []byte) ([]byte, error) {
+			<-slowGate // ignores its context: returns only after the connection is gone
+			return req, nil
+		})
 		svc.Stream("s", true, true, func(s grpcServerStream) error {
 			// which id? the harness learns it from the open that started us: count per live order instead
 			mu.Lock()
@@ -186,6 +195,11 @@ func execC12(t *testing.T, c C12Case) (v Verdict) {
 		}
 		w := kit.NewWorld(kit.Topo{Kind: "direct", Serialize: c.Ser, Clients: 1, Raw: true}, svc, sopts, nil)
 		raw := w.Links[0].A
+		for k := 0; k < c.SlowUnary; k++ {
+			se := kit.EnvSpec{Body: &kit.Payload{Class: "lit", Lit: []byte("slow")}, Wrap: true}
+			_ = raw.Write(context.Background(), se.Build(uint64(9001+k), kit.FullMethod("uslow"), "c0", kit.ServerName))
+		}
+		kit.Settle()
 		for _, s := range c.Seq {
 			e := al[s.Shape].Env
 			_ = raw.Write(context.Background(), e.Build(s.ID, "", "c0", kit.ServerName))
@@ -223,6 +237,8 @@ func execC12(t *testing.T, c C12Case) (v Verdict) {
 		serveDone, _ = w.ServeResult("c0")
 		tap = w.Tap.Snapshot()
 		w.Shutdown()
+		kit.Settle()
+		close(slowGate) // the slow unary handlers reply to a connection that no longer exists
 		kit.Settle()
 	})
 	if res.Panic != nil {
